@@ -12,7 +12,9 @@ class C02(Prop):
     nontrivial_rule = ("cases: the 16 rows of the public state_change function (16x256, exhaustive); every byte string up to length L over the "
                        "28-symbol class alphabet (exhaustive; L=3 quick, 4 thorough); boundary-biased grammar streams; each stream again after a random prefix + CAN/SUB. "
                        "non-trivial = distinct case whose callback trace holds at least one event other than print/execute")
-    trusted = ["third-party utf8parse automaton: transcribed (Model/Utf8parse.v), tied by every UTF-8 case"]
+    trusted = ["third-party utf8parse automaton: transcribed (Model/Utf8parse.v), tied by every UTF-8 case",
+               "the value-level reading of the two unsafe idioms in the translation (tools/gen_fn_parser.py): a MaybeUninit slot is an option "
+               "(uninitialised slot read back = None), transmute::<u8, State|Action> is the discriminant decoder"]
     assumptions = ["input bytes are < 256 (the Rust type u8)"]
 
     def streams(self, tier, rng):
